@@ -6,6 +6,9 @@ From CF Require Import C08.PyVal.
 From CF Require Import C08.Model.
 From CF Require Import C08.FwLayout.
 From CF Require Import C08.Gen_Layout.
+From CF Require Import C08.Proofs_a.
+From CF Require Import C08.Check.
+From CF Require Import C08.Proofs_core.
 From Coq Require Import ZifyBool.
 Ltac Zify.zify_post_hook ::= Z.to_euclidean_division_equations.
 Open Scope Z_scope.
@@ -15,32 +18,10 @@ Lemma layout_matches_fw : forall c, strip (impl_action c) = fw_action c /\ impl_
 Proof. intros c. destruct c; split; reflexivity. Qed.
 
 (* ---------------------------------------------------------------- header byte *)
-Fixpoint zrange (a : Z) (n : nat) : list Z :=
-  match n with O => [] | S k => a :: zrange (a + 1) k end.
 
-Lemma zrange_In a n z : In z (zrange a n) <-> a <= z < a + Z.of_nat n.
-Proof.
-  revert a; induction n as [|n IH]; intros a; cbn [zrange In].
-  - lia.
-  - rewrite IH. lia.
-Qed.
 
-Definition header_ok (p c : Z) : bool :=
-  let h := crtp_header p c in
-  (crtp_port h =? p) && (crtp_chan h =? c) && (0 <=? h) && (h <? 256) && (Z.land (Z.shiftr h 2) 3 =? 3).
 
-Lemma header_all : forallb (fun p => forallb (header_ok p) (zrange 0 4)) (zrange 0 16) = true.
-Proof. vm_compute. reflexivity. Qed.
 
-Lemma header_lossless p c : 0 <= p < 16 -> 0 <= c < 4 ->
-  let h := crtp_header p c in
-  crtp_port h = p /\ crtp_chan h = c /\ 0 <= h < 256 /\ Z.land (Z.shiftr h 2) 3 = 3.
-Proof.
-  intros Hp Hc. pose proof header_all as H. rewrite forallb_forall in H.
-  specialize (H p). rewrite zrange_In in H. specialize (H ltac:(lia)).
-  rewrite forallb_forall in H. specialize (H c). rewrite zrange_In in H. specialize (H ltac:(lia)).
-  unfold header_ok in H. cbv zeta. lia.
-Qed.
 
 (* ================================================================ decode (encode args) = intended args *)
 From CF Require Import C08.Proofs_a.
@@ -132,18 +113,6 @@ Proof.
 Qed.
 
 (* ---------------------------------------------------------------- thrust *)
-Lemma setpoint_spec_thrust_raises cf en t :
-  nth_error (e_args en) 3 = Some (PInt t) -> (t < 0 \/ 65535 < t) ->
-  run (fw_action CSetpoint) cf en = Raised EValue.
-Proof.
-  intros Ha Ht. cbn [fw_action run eval_cond eval]. rewrite Ha. cbn [bind py_gt py_lt py_cmp num_of].
-  destruct (t ?= 65535) eqn:E1; cbn [bind].
-  - apply Z.compare_eq in E1. cbn [py_lt py_cmp bind num_of eval]. destruct (t ?= 0) eqn:E0; try reflexivity;
-      rewrite ?Z.compare_eq_iff, ?Z.compare_gt_iff in E0; lia.
-  - rewrite Z.compare_lt_iff in E1. destruct (t ?= 0) eqn:E0; try reflexivity;
-      rewrite ?Z.compare_eq_iff, ?Z.compare_gt_iff in E0; lia.
-  - reflexivity.
-Qed.
 
 Lemma setpoint_thrust_raises cf en t :
   nth_error (e_args en) 3 = Some (PInt t) -> (t < 0 \/ 65535 < t) ->
@@ -194,71 +163,12 @@ Proof.
 Qed.
 
 (* ---------------------------------------------------------------- lighthouse persist masks *)
-Lemma testbit_1 k : Z.testbit 1 k = (k =? 0).
-Proof. destruct k as [|q|q]; reflexivity. Qed.
 
-Lemma testbit_shl1 b i : 0 <= b -> 0 <= i -> Z.testbit (Z.shiftl 1 b) i = (i =? b).
-Proof.
-  intros Hb Hi. rewrite Z.shiftl_spec by lia. rewrite testbit_1.
-  destruct (i - b =? 0) eqn:E1, (i =? b) eqn:E2; try reflexivity; lia.
-Qed.
 
-Lemma mask_or_acc l : forall acc i, Forall (fun b => 0 <= b) l -> 0 <= i ->
-  Z.testbit (fold_left (fun m b => Z.lor m (Z.shiftl 1 b)) l acc) i = Z.testbit acc i || existsb (Z.eqb i) l.
-Proof.
-  induction l as [|b l IH]; intros acc i Hl Hi; cbn [fold_left existsb].
-  - now rewrite orb_false_r.
-  - inversion Hl as [|? ? Hb Hl']; subst. rewrite IH by assumption.
-    rewrite Z.lor_spec, testbit_shl1 by lia. now rewrite orb_assoc.
-Qed.
 
-Lemma mask_or_bits l i : Forall (fun b => 0 <= b) l -> 0 <= i ->
-  (Z.testbit (mask_or l) i = true <-> In i l).
-Proof.
-  intros Hl Hi. unfold mask_or. rewrite mask_or_acc by assumption. rewrite Z.bits_0, orb_false_l.
-  rewrite existsb_exists. split.
-  - intros (x & Hx & E). apply Z.eqb_eq in E. now subst.
-  - intros H. exists i. split; [exact H|apply Z.eqb_refl].
-Qed.
 
-Lemma list_outside_spec L lo hi : L <> [] ->
-  ((list_min L <? lo) || (hi <? list_max L) = false <-> Forall (fun b => lo <= b <= hi) L).
-Proof.
-  intros Hne. unfold list_min, list_max.
-  assert (G : forall d, (fold_right Z.min d L <? lo) || (hi <? fold_right Z.max d L) = false <->
-                        (lo <= d <= hi /\ Forall (fun b => lo <= b <= hi) L)).
-  { induction L as [|x L IH]; intros d; cbn [fold_right].
-    - split; [intros H; split; [lia|constructor]|intros [H _]; lia].
-    - destruct L as [|y L'].
-      + cbn [fold_right]. split.
-        * intros H. split; [lia|]. constructor; [lia|constructor].
-        * intros [H1 H2]. inversion H2; subst. lia.
-      + specialize (IH ltac:(discriminate) d). split.
-        * intros H. assert (H' : (fold_right Z.min d (y :: L') <? lo) || (hi <? fold_right Z.max d (y :: L')) = false) by lia.
-          apply IH in H'. destruct H' as [Hd HF]. split; [exact Hd|]. constructor; [lia|exact HF].
-        * intros [Hd HF]. inversion HF as [|? ? Hx HF']; subst.
-          pose proof (proj2 IH (conj Hd HF')) as H'. lia. }
-  destruct L as [|x L]; [contradiction|]. cbn [hd]. rewrite G. split.
-  - intros [_ H]. exact H.
-  - intros H. split; [|exact H]. inversion H; subst. assumption.
-Qed.
 
-Lemma in_range_dec (G : list Z) :
-  {Forall (fun b => 0 <= b <= 15) G} + {~ Forall (fun b => 0 <= b <= 15) G}.
-Proof. apply Forall_dec. intros x. destruct (Z_le_dec 0 x), (Z_le_dec x 15); (left; lia) || (right; lia). Qed.
 
-Lemma list_outside_eval cf en l L :
-  nth_error (e_lists en) l = Some L ->
-  eval_cond cf en (CListOutside l 0 15) = Ok (if in_range_dec L then false else true).
-Proof.
-  intros H. cbn [eval_cond]. rewrite H. destruct L as [|x L'].
-  - destruct (in_range_dec []) as [_|N]; [reflexivity|]. exfalso. apply N. constructor.
-  - pose proof (list_outside_spec (x :: L') 0 15 ltac:(discriminate)) as S.
-    destruct (in_range_dec (x :: L')) as [Y|N].
-    + f_equal. apply S, Y.
-    + f_equal. destruct ((list_min (x :: L') <? 0) || (15 <? list_max (x :: L'))) eqn:E; [reflexivity|].
-      exfalso. apply N. apply S. reflexivity.
-Qed.
 
 (* lists with an entry outside 0..15 are rejected *)
 Lemma persist_outside_raises cf en G C :
@@ -277,53 +187,12 @@ Proof.
   split; [exact S|]. apply (strip_raised _ _ _ EOther). rewrite (proj1 (layout_matches_fw CLocLhPersist)). exact S.
 Qed.
 
-Lemma forallb_nonneg l : forallb (fun b => 0 <=? b) l = true -> Forall (fun b => 0 <= b) l.
-Proof. rewrite forallb_forall, Forall_forall. intros H x Hx. specialize (H x Hx). lia. Qed.
 
-(* what the firmware must end up with: exactly the OR-masks, never wrapped *)
-Lemma persist_intended cf en G C aws :
-  e_lists en = [G; C] -> intended CLocLhPersist cf en = Some aws ->
-  aws = [(U16, mask_or G); (U16, mask_or C)] /\ Forall (fun b => 0 <= b) G /\ Forall (fun b => 0 <= b) C /\
-  0 <= mask_or G < 65536 /\ 0 <= mask_or C < 65536.
-Proof.
-  intros He. unfold intended. cbn [api_action api run_api eval_fields eval bind]. rewrite He. cbn [nth_error].
-  destruct (forallb (fun b => 0 <=? b) G) eqn:EG; cbn [bind]; [|discriminate].
-  destruct (forallb (fun b => 0 <=? b) C) eqn:EC; cbn [bind]; [|discriminate].
-  cbn [convert_fields to_wire wire_int bind].
-  destruct (fld_ok U16 (mask_or G)) eqn:FG; cbn [bind]; [|discriminate].
-  destruct (fld_ok U16 (mask_or C)) eqn:FC; cbn [bind]; [|discriminate].
-  intros [= <-]. unfold fld_ok in FG, FC. cbn in FG, FC.
-  repeat split; try (apply forallb_nonneg; assumption); try reflexivity; lia.
-Qed.
 
 (* ---------------------------------------------------------------- small explicit facts for Property.v *)
-Lemma xmode_intended cf en :
-  intended CSetpoint cf en =
-  match (if c_xmode cf
-         then vals en [(KS F32, xm_roll); (KS F32, xm_pitch); (KS F32, EArg 2); (KS U16, EArg 3)]
-         else vals en [(KS F32, EArg 0); (KS F32, EArg 1); (KS F32, EArg 2); (KS U16, EArg 3)])
-  with Ok ws => Some ws | Raise _ => None end.
-Proof. unfold intended. cbn [api_action run_api eval_cond]. destruct (c_xmode cf); reflexivity. Qed.
 
-Lemma py_int_finite s m e :
-  py_int (PFloat (S754_finite s m e)) = Ok (PInt (trunc_sf s m e)) /\
-  py_int (PFloat S754_nan) = Raise EValue /\
-  (forall s', py_int (PFloat (S754_infinity s')) = Raise EOverflow).
-Proof. repeat split. Qed.
 
-Lemma new_types_need_v9 ver t rest : ver < 9 -> (t = 8 \/ t = 9 \/ t = 10) ->
-  fw_decode ver 7 0 (t :: rest) = None.
-Proof.
-  intros Hv Ht. unfold fw_decode. cbn [untagged needs_t2 nth].
-  destruct Ht as [->|[->| ->]]; cbn; unfold ver_knows;
-    (replace (9 <=? ver) with false by lia); reflexivity.
-Qed.
 
-Lemma go_to_2_needs_v8 ver t rest : ver < 8 -> (t = 11 \/ t = 12) -> fw_decode ver 8 0 (t :: rest) = None.
-Proof.
-  intros Hv Ht. unfold fw_decode. cbn [untagged needs_t2 nth].
-  destruct Ht as [->| ->]; cbn; unfold ver_knows; (replace (8 <=? ver) with false by lia); reflexivity.
-Qed.
 
 Lemma thrust_range_raises : forall cf en t,
   nth_error (e_args en) 3 = Some (PInt t) -> (t < 0 \/ 65535 < t) ->
@@ -333,32 +202,9 @@ Proof.
   split; [exact (setpoint_spec_thrust_raises cf en t Ha Ht)|exact (setpoint_thrust_raises cf en t Ha Ht)].
 Qed.
 
-Lemma conversion_in_range : forall k v w, to_wire k v = Ok w -> fld_lo (conv_fld k) <= w < fld_hi (conv_fld k).
-Proof. intros k v w H. apply to_wire_ok in H. unfold fld_ok in H. lia. Qed.
 
-Lemma integer_fields_exact : forall f z, is_float_fld f = false -> f <> Bool8 ->
-  (fld_lo f <= z < fld_hi f -> to_wire (KS f) (PInt z) = Ok z) /\
-  (~ (fld_lo f <= z < fld_hi f) -> to_wire (KS f) (PInt z) = Raise EStruct) /\
-  (forall d, to_wire (KS f) (PFloat d) = Raise EStruct) /\ to_wire (KS f) PNone = Raise EStruct.
-Proof.
-  intros f z Hf Hb. destruct (wire_int_exact f z Hf Hb) as [A B].
-  repeat split; try assumption.
-  - intros d. apply (wire_int_nonint f d Hf Hb).
-  - apply (wire_int_nonint f S754_nan Hf Hb).
-Qed.
 
-Lemma fixed_point_truncates : forall s m e,
-  py_int (PFloat (S754_finite s m e)) = Ok (PInt (trunc_sf s m e)) /\
-  let n := trunc_sf s m e in
-  (0 <= e -> n = (if s then -1 else 1) * (Zpos m * 2 ^ e)) /\
-  (e < 0 -> Z.abs n * 2 ^ (- e) <= Zpos m < (Z.abs n + 1) * 2 ^ (- e)) /\
-  (if s then n <= 0 else 0 <= n).
-Proof. intros s m e. split; [reflexivity|apply trunc_sf_spec]. Qed.
 
-Lemma new_types_need_new_firmware : forall ver t rest,
-  (ver < 9 -> (t = 8 \/ t = 9 \/ t = 10) -> fw_decode ver 7 0 (t :: rest) = None) /\
-  (ver < 8 -> (t = 11 \/ t = 12) -> fw_decode ver 8 0 (t :: rest) = None).
-Proof. intros ver t rest. split; [apply new_types_need_v9|apply go_to_2_needs_v8]. Qed.
 
 (* ---------------------------------------------------------------- sessions *)
 Lemma session_decodes : forall h : list step,
